@@ -29,6 +29,8 @@ type simSub struct {
 	Sticky bool
 	// FlushOnly: with Sticky, only Flush keeps failing (writes are buffered, the flush hits the broken connection).
 	FlushOnly bool
+	// Disguise: the injected failures also match this sentinel under errors.Is (nil: plain).
+	Disguise error
 	// OnCall runs inside every call, before it returns (scheduling point,
 	// self-cancellation, logging).
 	OnCall func(s *simSub, flush bool, m *sse.Message, err error)
@@ -38,7 +40,7 @@ func (s *simSub) Send(m *sse.Message) error {
 	s.sends++
 	var err error
 	if s.FailSendAt > 0 && s.sends == s.FailSendAt {
-		err = newInjected(fmt.Sprintf("sub%d send#%d", s.ID, s.sends))
+		err = newInjectedAs(fmt.Sprintf("sub%d send#%d", s.ID, s.sends), s.Disguise)
 		s.Failed = err
 	} else if s.Sticky && s.Failed != nil && !s.FlushOnly {
 		err = s.Failed
@@ -54,7 +56,7 @@ func (s *simSub) Flush() error {
 	s.flushes++
 	var err error
 	if s.FailFlushAt > 0 && s.flushes == s.FailFlushAt {
-		err = newInjected(fmt.Sprintf("sub%d flush#%d", s.ID, s.flushes))
+		err = newInjectedAs(fmt.Sprintf("sub%d flush#%d", s.ID, s.flushes), s.Disguise)
 		s.Failed = err
 	} else if s.Sticky && s.Failed != nil {
 		err = s.Failed
